@@ -41,7 +41,7 @@ def it(a):
 # ----------------------------------------------------------------------------- CP / Tucker regressors
 def draw_reg(c, seed):
     xs, ys, n = tuple(c["xs"]), tuple(c["ys"]), c["n"]
-    rng = _rng(seed, 30, c["model"] == "cp", n, c["rank"], c["reg"], c["k"], REGOPT[c["opt"]][2], c.get("ux", 0) + 100, c.get("uy", 0) + 100, sorted(["f64", "x32", "xint", "reg32", "reg64"]).index(c.get("ff", "f64")), len(ys), *xs)
+    rng = _rng(seed, 30, c["model"] == "cp", n, c["rank"], c["reg"], c["k"], REGOPT[c["opt"]][2], c.get("ux", 0) + 100, c.get("uy", 0) + 100, FITFORMS.index(c.get("ff", "f64")), len(ys), *xs)
     X = rng.integers(-3, 4, size=(n,) + xs).astype(float)
     Wtrue = rng.integers(-2, 3, size=xs + ys).astype(float) / 2.0
     y = np.tensordot(X, Wtrue, axes=(list(range(1, X.ndim)), list(range(len(xs))))) + 0.1 * rng.standard_normal((n,) + ys)
@@ -76,9 +76,38 @@ REG_FORMS = ["float32", "int64", "int32", "uint8", "fortran", "strided"]
 FLOAT_FORMS = ["float32", "fortran", "strided"]      # integer arrays cannot hold data in other units
 
 
+def layout(a, lay):
+    """The same values in another memory layout (never C-contiguous and writable at the same time, except "C")."""
+    a = np.asarray(a)
+    if lay in ("C", "f64") or a.ndim == 0:
+        return a
+    if lay == "F":
+        return np.asfortranarray(a) if a.ndim > 1 else layout(a, "strided")
+    if lay == "moved":                      # stored samples-last, handed over through a transposed view
+        return np.moveaxis(np.ascontiguousarray(np.moveaxis(a, 0, -1)), -1, 0) if a.ndim > 1 else layout(a, "strided")
+    if lay == "strided":
+        big = np.zeros(a.shape[:-1] + (a.shape[-1] * 2,), dtype=a.dtype)
+        big[..., ::2] = a
+        return big[..., ::2]
+    if lay == "ro":
+        b = a.copy()
+        b.setflags(write=False)
+        return b
+    raise ValueError(lay)
+
+
+FITFORMS = ["f64", "reg32", "reg64", "x32", "xint", "xF", "xmoved", "xstrided", "xro", "yF"]
+
+
 def fit_form(X, ff):
-    """dtype of the training samples (integer valued): float32 / int64 with float64 targets."""
+    """dtype / memory layout of the training samples (integer valued)."""
+    if ff in ("xF", "xmoved", "xstrided", "xro"):
+        return layout(X, ff[1:])
     return X.astype(np.float32) if ff == "x32" else X.astype(np.int64) if ff == "xint" else X
+
+
+def fit_form_y(y, ff):
+    return layout(y, "F") if ff == "yF" else layout(y, "ro") if ff == "xro" else y
 
 
 def reg_form(reg, ff):
@@ -123,7 +152,7 @@ def exec_reg(case):
             est = CPRegressor(weight_rank=c["rank"], reg_W=reg_form(c["reg"] / 10.0, c["ff"]), n_iter_max=nmax, tol=tol, random_state=rs, verbose=0)
         else:
             est = TuckerRegressor(weight_ranks=list(c["ranks"]), reg_W=reg_form(c["reg"] / 10.0, c["ff"]), n_iter_max=nmax, tol=tol, random_state=rs, verbose=0)
-        est.fit(tl.tensor(fit_form(X * ux, c["ff"])), tl.tensor(y * uy))
+        est.fit(tl.tensor(fit_form(X * ux, c["ff"])), tl.tensor(fit_form_y(y * uy, c["ff"])))
     except Exception as ex:
         ev.update(blank)
         ev["fit"] = {"raised": True, "exc": type(ex).__name__, "msg": str(ex)[:120]}
@@ -160,7 +189,7 @@ def exec_reg(case):
         rf = {"raised": False, "x": it(sub), "weight": EMPTY, "vec": EMPTY, "dense": EMPTY, "pred": EMPTY}
         try:
             est.set_params(reg_W=2.0 * c["reg"] / 10.0)
-            est.fit(tl.tensor(fit_form(X2 * ux, c["ff"])), tl.tensor(y2 * uy))
+            est.fit(tl.tensor(fit_form(X2 * ux, c["ff"])), tl.tensor(fit_form_y(y2 * uy, c["ff"])))
             rf["weight"] = qt(np.asarray(est.weight_tensor_) * wu)
             rf["vec"] = qt(np.asarray(est.vec_W_) * wu)
             rf["dense"] = qt(np.asarray(cp_to_tensor(est.cp_weight_) if c["model"] == "cp" else tucker_to_tensor(est.tucker_weight_)) * wu)
@@ -180,7 +209,8 @@ def exec_reg(case):
 def draw_pls(c, seed):
     """Well separated synthetic data: orthonormal scores, strengths 6 / 3 / 1.5, small noise."""
     xs, n, ny = tuple(c["xs"]), c["n"], c["ny"]
-    rng = _rng(seed, 31, n, ny, c["nc"], c["k"], PLSOPT[c["opt"]][2], c.get("ux", 0) + 100, c.get("uy", 0) + 100, *xs)
+    rng = _rng(seed, 31, n, ny, c["nc"], c["k"], PLSOPT[c["opt"]][2], c.get("ux", 0) + 100, c.get("uy", 0) + 100,
+               ["C", "F", "moved", "strided", "ro"].index(c.get("lay", "C")), ["generic", "contrast", "zerofeat"].index(c.get("dat", "generic")), *xs)
     K = 3
     T_, _ = np.linalg.qr(rng.standard_normal((n, K)))
     sig = np.array([6.0, 3.0, 1.5])
@@ -194,6 +224,10 @@ def draw_pls(c, seed):
     X += 0.01 * rng.standard_normal(X.shape)
     if int(np.prod(xs)) > 50000:          # size regime: unstructured data
         X = rng.standard_normal(X.shape)
+    if c.get("dat") == "contrast":        # exact contrast in the last mode: X[..., 1] == -X[..., 0] bit for bit
+        X = np.stack([X[..., 0], -X[..., 0]], axis=-1)
+    elif c.get("dat") == "zerofeat":      # one feature identically zero
+        X[(slice(None),) + (0,) * len(xs)] = 0.0
     cols = max(ny, 1)
     Y = (T_ * sig) @ rng.standard_normal((K, cols)) + 0.01 * rng.standard_normal((n, cols))
     if int(np.prod(xs)) > 50000:
@@ -228,13 +262,14 @@ def _pls_record(est, Xtrain, Xt, ux=1.0, uy=1.0):
 
 
 def _fit_pls(c, X, Y, Xtrain_for_transform, Xt, extra=False, perm=None, kbad=0, ux=1.0, uy=1.0):
+    lay = c.get("lay", "C")                 # memory layout of the TRAINING data of every fit of this event
     """X, Y, Xt are already in the configuration's units (multiplied by ux / uy); results are logged per unit."""
     import tensorly as tl
     blank = {"scores": EMPTY, "transform": EMPTY, "loads": [], "yload": EMPTY, "pred": EMPTY}
     qx = lambda a: qt(np.asarray(a) / ux)
     qy = lambda a: qt(np.asarray(a) / uy)
     try:
-        est = _new_pls(c).fit(tl.tensor(X.copy()), tl.tensor(Y.copy()))
+        est = _new_pls(c).fit(tl.tensor(layout(X.copy(), lay)), tl.tensor(layout(Y.copy(), lay)))
         out = _pls_record(est, Xtrain_for_transform, Xt, ux, uy)
     except Exception as ex:
         blank.update({"raised": True, "exc": type(ex).__name__, "msg": str(ex)[:120]})
@@ -248,7 +283,7 @@ def _fit_pls(c, X, Y, Xtrain_for_transform, Xt, extra=False, perm=None, kbad=0, 
         est.transform(Xa, Ya)
         xt, yt = est.transform(Xa, Ya)          # second query with the very same arrays: still the fitted scores
         x["xt"], x["yt"] = qx(xt), qy(yt)
-        ftx, fty = _new_pls(c).fit_transform(tl.tensor(X.copy()), tl.tensor(Y.copy()))
+        ftx, fty = _new_pls(c).fit_transform(tl.tensor(layout(X.copy(), lay)), tl.tensor(layout(Y.copy(), lay)))
         x["ftx"], x["fty"] = qx(ftx), qy(fty)
         for form in ("fortran", "strided"):
             run = {"form": form, "raised": False, "transform": EMPTY, "pred": EMPTY}
@@ -259,7 +294,7 @@ def _fit_pls(c, X, Y, Xtrain_for_transform, Xt, extra=False, perm=None, kbad=0, 
                 run.update(raised=True, exc=type(ex).__name__)
             x["forms"].append(run)
         try:
-            x["again"] = _pls_record(_new_pls(c).fit(tl.tensor(X.copy()), tl.tensor(Y.copy())), X, Xt, ux, uy)
+            x["again"] = _pls_record(_new_pls(c).fit(tl.tensor(layout(X.copy(), lay)), tl.tensor(layout(Y.copy(), lay))), X, Xt, ux, uy)
         except Exception as ex:
             x["again"] = {"raised": True, "exc": type(ex).__name__}
         # a fit that must be rejected, on the same object: other X values, and (a) one sample too many / (b) a 3-mode Y
@@ -277,7 +312,7 @@ def _fit_pls(c, X, Y, Xtrain_for_transform, Xt, extra=False, perm=None, kbad=0, 
         x["reject"] = rj
         # ... and fitted again on the permuted samples
         try:
-            est.fit(tl.tensor(X[perm].copy()), tl.tensor(Y[perm].copy()))
+            est.fit(tl.tensor(layout(X[perm].copy(), lay)), tl.tensor(layout(Y[perm].copy(), lay)))
             x["refit"] = _pls_record(est, X[perm], Xt, ux, uy)
         except Exception as ex:
             x["refit"] = {"raised": True, "exc": type(ex).__name__}
